@@ -193,7 +193,7 @@ static std::string uri_spelling(vrng* g, const std::string& dir, const std::stri
     }
 }
 
-static struct { unsigned long cases, cycles, appends, frames, bytes, files, empty_cycles, fileuri; } C;
+static struct { unsigned long cases, cycles, appends, frames, bytes, files, empty_cycles, fileuri, restarts_without_set; } C;
 static vset g_sigs;
 
 // append frames [0,n) of buf grouped into random packets; returns false if the HAL reported an error
@@ -228,14 +228,21 @@ static void run_raw_case(uint64_t seed, unsigned long icase, const std::string& 
     uint64_t sig = vhash_init();
     for (int cy = 0; cy < ncycles && !g_case_violated; ++cy) {
         char name[64]; snprintf(name, sizeof name, "c%lu_%d.raw", icase, cy);
-        std::string real, uri = uri_spelling(&g, dir, name, &real);
-        if (uri[0] == 'f') ++C.fileuri;
-        struct StorageProperties props; memset(&props, 0, sizeof props);
-        struct PixelScale ps = { 1, 1 };
-        storage_properties_init(&props, 0, uri.c_str(), uri.size() + 1, 0, 0, ps, 0);
-        vbuf_printf(&g_log, "| set(%s) start ", uri.c_str());
-        if (storage_set(st, &props) != Device_Ok) { violation("C14", "set-failed", "storage_set failed for %s", uri.c_str()); storage_properties_destroy(&props); break; }
-        storage_properties_destroy(&props);
+        static std::string real, uri;
+        if (cy > 0 && vrng_chance(&g, 1, 4)) {
+            // start again without configuring again: same path (the previous file was verified and removed)
+            vbuf_printf(&g_log, "| (no set) start ");
+            ++C.restarts_without_set;
+        } else {
+            uri = uri_spelling(&g, dir, name, &real);
+            if (uri[0] == 'f') ++C.fileuri;
+            struct StorageProperties props; memset(&props, 0, sizeof props);
+            struct PixelScale ps = { 1, 1 };
+            storage_properties_init(&props, 0, uri.c_str(), uri.size() + 1, 0, 0, ps, 0);
+            vbuf_printf(&g_log, "| set(%s) start ", uri.c_str());
+            if (storage_set(st, &props) != Device_Ok) { violation("C14", "set-failed", "storage_set failed for %s", uri.c_str()); storage_properties_destroy(&props); break; }
+            storage_properties_destroy(&props);
+        }
         if (storage_start(st) != Device_Ok) { violation("C14", "start-failed", "storage_start failed"); break; }
         int nframes = vrng_chance(&g, 1, 8) ? 0 : (int)vrng_range(&g, 1, 30);
         std::vector<uint8_t> buf; std::vector<FrameSpec> specs;
@@ -428,8 +435,8 @@ int main(int argc, char** argv)
             if (g_nviol > 20) break;
         }
         printf("S {\"mode\":\"%s\",\"cases\":%lu,\"violations\":%lu,\"cycles\":%lu,\"appends\":%lu,\"frames\":%lu,\"bytes\":%lu,\"files\":%lu,"
-               "\"empty_cycles\":%lu,\"file_uri_spellings\":%lu,\"opens\":%lu,\"pwrites\":%lu,\"short_writes\":%lu,\"closes\":%lu,\"distinct\":%zu}\n",
-               mode, C.cases, g_nviol, C.cycles, C.appends, C.frames, C.bytes, C.files, C.empty_cycles, C.fileuri, IO.n_open, IO.n_pwrite, IO.shorts,
+               "\"empty_cycles\":%lu,\"restarts_without_set\":%lu,\"file_uri_spellings\":%lu,\"opens\":%lu,\"pwrites\":%lu,\"short_writes\":%lu,\"closes\":%lu,\"distinct\":%zu}\n",
+               mode, C.cases, g_nviol, C.cycles, C.appends, C.frames, C.bytes, C.files, C.empty_cycles, C.restarts_without_set, C.fileuri, IO.n_open, IO.n_pwrite, IO.shorts,
                IO.n_close, g_sigs.n);
         const char* hp = getenv("VERIF_HASH_OUT");
         if (hp) vset_dump(&g_sigs, hp);
